@@ -371,6 +371,33 @@ def routing_edges(seed: int, n: int) -> List[List[dict]]:
     return out
 
 
+def departure_with_logging(seed: int, n: int) -> List[List[dict]]:
+    """a subscriber of the manager's own log messages (by type or through ALL_MESSAGE_TYPES) goes away abruptly while the manager's
+    logging is on: whatever the manager logs about the departure, there is exactly one CLIENT_CLOSED and the others are served"""
+    out = []
+    for what in ("all", "log-types"):
+        for way in ("die", "rst", "fin"):
+            b = monitor_setup()
+            names = ["a", "b", "c"]
+            for c, mid in (("a", 21), ("b", 7)):
+                b += [opn(c), rnd(c), snd(c, con2(mid, 0, c)), rnd("", [c], names)]
+            if what == "all":
+                b += [snd("a", sub(15, 21, ALL)), rnd("", ["a"], names)]
+            else:
+                for t in (1234, 44, 42, 43):
+                    b += [snd("a", sub(15, 21, t)), rnd("", ["a"], names)]
+            b += [snd("b", sub(15, 7, 1234)), rnd("", ["b"], names)]
+            if way == "die":
+                b += [{"a": "Die", "c": "a"}, snd("b", data(1234, 7, 0, 0, 1)), rnd("", ["b"], names)]
+            elif way == "rst":
+                b += [{"a": "Rst", "c": "a"}, rnd("", ["a"], names)]
+            else:
+                b += [{"a": "Fin", "c": "a"}, rnd("", ["a"], names)]
+            b += [snd("b", data(1234, 7, 0, 0, 2)), rnd("", ["b"], ["b", "c"]), snd("b", data(1234, 7, 0, 0, 3)), rnd("", ["b"], ["b", "c"])]
+            out.append(b)
+    return out
+
+
 def no_notice_types(seed: int, n: int) -> List[List[dict]]:
     """messages that are themselves failure notices or log messages (FAILED_MESSAGE, RTMA_LOG and its five level types), published
     by a CLIENT, are undeliverable to a stalled / dead subscriber: no further notice is produced for any of them"""
